@@ -4,6 +4,7 @@
 From Coq Require Import List Bool NArith.
 From Mac Require Import Model.BundleM Model.BundleOps Proofs.BundleProofs.
 Import ListNotations.
+From Mac Require Import Proofs.FilterProofs.
 
 Theorem validate_iff :
     forall (ct : ctable) (b : bundle) (rq : N),
@@ -190,6 +191,67 @@ Theorem clone_resets :
     end.
 Proof. exact (@clone_resets_l). Qed.
 
+Theorem select_f_spec :
+    forall (ct : ctable) (b : bundle) (f : filt),
+    b_ts (select_f ct b f) = filter (filt_fn ct (b_loc b) (b_ts b) f) (b_ts b) /\
+    b_loc (select_f ct b f) = b_loc b.
+Proof. exact (@select_f_spec_l). Qed.
+
+Theorem select_f_incl :
+    forall (ct : ctable) (b : bundle) (f : filt) (t : tok), In t (b_ts (select_f ct b f)) -> In t (b_ts b).
+Proof. exact (@select_f_incl_l). Qed.
+
+Theorem select_f_length :
+    forall (ct : ctable) (b : bundle) (f : filt), length (b_ts (select_f ct b f)) <= length (b_ts b).
+Proof. exact (@select_f_length_l). Qed.
+
+Theorem allows_spec :
+    forall (ct : ctable) (rqs : list N) (t : tok),
+    allows ct rqs t = true <->
+    (exists (m : mac) (cs : N), t = TVer m cs /\ (forall rq : N, In rq rqs -> clookup ct cs rq = true)).
+Proof. exact (@allows_spec_l). Qed.
+
+Theorem validate_iff_allows :
+    forall (ct : ctable) (b : bundle) (rq : N),
+    validate ct b rq = negb (is_nil (b_ts (select_f ct b (FAllows [rq])))).
+Proof. exact (@validate_iff_allows_l). Qed.
+
+Theorem validate_many_iff_allows :
+    forall (ct : ctable) (b : bundle) (rqs : list N),
+    validate_many ct b rqs = negb (is_nil (b_ts (select_f ct b (FAllows rqs)))).
+Proof. exact (@validate_many_iff_allows_l). Qed.
+
+Theorem missing_for_spec :
+    forall (loc : N) (ts : list tok) (tp : N) (t : tok),
+    missing_for loc ts tp t = true <->
+    is_perm loc t = true /\
+    (exists (m : mac) (k : N), tok_mac t = Some m /\ In (tp, k) (m_tickets m) /\ dis_for loc ts k = []).
+Proof. exact (@missing_for_spec_l). Qed.
+
+Theorem no_missing_iff_undischarged :
+    forall (ct : ctable) (b : bundle) (tp : N),
+    b_ts (select_f ct b (FMissing tp)) = [] <-> undischarged_for b tp = [].
+Proof. exact (@no_missing_iff_undischarged_l). Qed.
+
+Theorem withdis_spec :
+    forall (ct : ctable) (loc : N) (ts : list tok) (g : filt) (t : tok),
+    filt_fn ct loc ts (FWithDis g) t = true <->
+    filt_fn ct loc ts g t = true \/
+    (exists p : tok, In p ts /\ discharges_perm loc p t = true /\ filt_fn ct loc ts g p = true).
+Proof. exact (@withdis_spec_l). Qed.
+
+Theorem withdis_monotone :
+    forall (ct : ctable) (b : bundle) (g : filt) (t : tok),
+    In t (b_ts (select_f ct b g)) -> In t (b_ts (select_f ct b (FWithDis g))).
+Proof. exact (@withdis_monotone_l). Qed.
+
+Theorem discharges_perm_spec :
+    forall (loc : N) (p t : tok),
+    discharges_perm loc p t = true <->
+    is_perm loc p = true /\
+    is_dis loc t = true /\ (exists k : N, kid_of t = Some k /\ In k (tickets_of p)).
+Proof. exact (@discharges_perm_spec_l). Qed.
+
 Print Assumptions validate_iff.
 Print Assumptions bundle_decision_equiv.
 Print Assumptions bundle_decision_equiv_general.
@@ -217,3 +279,14 @@ Print Assumptions discharge_undischarged.
 Print Assumptions select.
 Print Assumptions clone_header.
 Print Assumptions clone_resets.
+Print Assumptions select_f_spec.
+Print Assumptions select_f_incl.
+Print Assumptions select_f_length.
+Print Assumptions allows_spec.
+Print Assumptions validate_iff_allows.
+Print Assumptions validate_many_iff_allows.
+Print Assumptions missing_for_spec.
+Print Assumptions no_missing_iff_undischarged.
+Print Assumptions withdis_spec.
+Print Assumptions withdis_monotone.
+Print Assumptions discharges_perm_spec.
